@@ -581,7 +581,21 @@ pub fn string_split(
 
     let s = interp.to_js_string(&this);
     let separator_arg = args.first().cloned();
-    let limit = args.get(1).map(|v| v.to_number() as usize);
+    // limit is ToUint32(limit); undefined means "no limit"
+    let limit = args
+        .get(1)
+        .filter(|v| !v.is_undefined())
+        .map(|v| {
+            let n = v.to_number();
+            if !n.is_finite() {
+                0usize
+            } else {
+                // truncate, then wrap modulo 2^32 (so -1 becomes 4294967295)
+                let t = n.trunc();
+                let m = t - 4294967296.0 * (t / 4294967296.0).floor();
+                m as usize
+            }
+        });
 
     let parts: Vec<JsValue> = match separator_arg {
         // Per ECMAScript spec: if separator is undefined, return array containing original string
@@ -1037,10 +1051,12 @@ pub fn string_code_point_at(
     args: &[JsValue],
 ) -> Result<Guarded, JsError> {
     let s = interp.to_js_string(&this);
+    // ToIntegerOrInfinity(pos): NaN -> 0, fractions truncate
     let index = args.first().map(|v| v.to_number()).unwrap_or(0.0);
+    let index = if index.is_nan() { 0.0 } else { math::trunc(index) };
 
-    // Check for negative or non-integer index
-    if index < 0.0 || math::fract(index) != 0.0 {
+    // A negative position is out of range
+    if index < 0.0 {
         return Ok(Guarded::unguarded(JsValue::Undefined));
     }
 
